@@ -38,6 +38,7 @@ import props.c15 as c15
 import props.c17 as c17
 import props.c20 as c20
 import props.c06_fixed as c06f
+import props.c06_var as c06v
 import props.c07 as c07
 
 from spacepackets.cfdp.pdu.ack import AckPdu
@@ -46,9 +47,8 @@ from spacepackets.cfdp.pdu.keep_alive import KeepAlivePdu
 from spacepackets.cfdp.pdu.nak import NakPdu
 from spacepackets.cfdp.pdu.file_data import FileDataPdu
 from spacepackets.cfdp.pdu.eof import EofPdu
-from spacepackets.cfdp.pdu.finished import FinishedPdu, FinishedParams, DeliveryCode, FileStatus
-from spacepackets.cfdp.pdu.metadata import MetadataPdu, MetadataParams
-from spacepackets.cfdp.defs import ConditionCode, ChecksumType
+from spacepackets.cfdp.pdu.finished import FinishedPdu
+from spacepackets.cfdp.pdu.metadata import MetadataPdu
 
 
 def crc16(data: bytes) -> int:
@@ -153,10 +153,15 @@ def op_c09_unit(a):
     out = {"fields": f, "len": n, "declared": declared, "inside": n <= len(raw),
            "prefix": _verdict(k, cfg, raw[:n], f), "extended": _verdict(k, cfg, raw[:n] + alt, f)}
     # ---- the property at this point of its quantifier, on the real code alone ----
-    m = declared          # the length the unit declares (= the reported one except for filestore TLVs with slack)
+    m = declared          # the length the unit itself declares
     what = f"{a['kind']}: "
-    if n > m:
-        raise SelfCheckFailure(what + f"reported length {n} exceeds the declared length {m}")
+    if n != m:
+        # MUST HOLD (C09, first sentence): N is "the length the unit itself declares and the decoded object
+        # reports". An accepted unit whose object reports another length than the unit declares cannot be split
+        # off by the reported length.
+        v = _verdict(k, cfg, raw[:n], f) if n <= len(raw) else "beyond the buffer"
+        raise SelfCheckFailure(what + f"accepted; the unit declares {m} octets but the decoded object reports {n} "
+                               f"(decoding the first {n} octets gives '{v}'): it cannot be split off by its reported length")
     if m > len(raw):
         raise SelfCheckFailure(what + f"accepted, but the declared/reported length {m} exceeds the buffer ({len(raw)} octets)")
     v = _verdict(k, cfg, raw[:m], f)
@@ -173,6 +178,12 @@ def op_c09_unit(a):
     return out
 
 
+def _must_report_declared(k: Kind, buf: bytes, n: int):
+    if k.declared is not None and int(k.declared(buf)) != n:
+        raise SelfCheckFailure(f"{k.name}: accepted; the unit declares {int(k.declared(buf))} octets but the decoded object "
+                               f"reports {n}: it cannot be split off by its reported length")
+
+
 def _kc(entry) -> Tuple[Kind, Dict[str, Any]]:
     return KINDS[entry["kind"]], (entry.get("cfg") or {})
 
@@ -187,6 +198,7 @@ def op_c09_split(a):
         k, cfg = _kc(entry)
         obj = k.decode(buf, cfg)
         n = k.length(obj)
+        _must_report_declared(k, buf, n)
         units.append({"fields": k.fields(obj), "len": n})
         lens.append(n)
         buf = buf[n:]
@@ -214,6 +226,7 @@ def op_c09_stream(a):
             raise SelfCheckFailure("splitting by reported lengths does not terminate")
         obj = k.decode(buf, cfg)
         n = k.length(obj)
+        _must_report_declared(k, buf, n)
         if n == 0:
             raise ValueError("unit of reported length 0")
         units.append({"fields": k.fields(obj), "len": n})
@@ -233,40 +246,17 @@ class PduKind:
         self.fields = fields
 
 
-def _eof_fields(p):
-    fl = p.fault_location
-    return {"packet_len": int(p.packet_len), "crc": int(p.pdu_header.crc_flag), "cond": int(p.condition_code),
-            "checksum": hx(p.file_checksum), "size": int(p.file_size),
-            "fault": None if fl is None else hx(bytes(fl.pack()))}
-
-
-def _fin_fields(p):
-    fl = p.fault_location
-    return {"packet_len": int(p.packet_len), "crc": int(p.pdu_header.crc_flag), "cond": int(p.condition_code),
-            "delivery": int(p.delivery_code), "status": int(p.file_status),
-            "responses": [hx(bytes(t.pack())) for t in (p.file_store_responses or [])],
-            "fault": None if fl is None else hx(bytes(fl.pack()))}
-
-
-def _md_fields(p):
-    return {"packet_len": int(p.packet_len), "crc": int(p.pdu_header.crc_flag), "closure": bool(p.closure_requested),
-            "cktype": int(p.checksum_type), "size": int(p.file_size), "src": p.source_file_name, "dst": p.dest_file_name,
-            "options": [hx(bytes(t.pack())) for t in (p.options or [])]}
-
-
 PDU_KINDS: Dict[str, PduKind] = {k.name: k for k in [
     PduKind("ack", AckPdu.unpack, c06f._ack_fields),
     PduKind("prompt", PromptPdu.unpack, c06f._prompt_fields),
     PduKind("keep_alive", KeepAlivePdu.unpack, c06f._ka_fields),
     PduKind("nak", NakPdu.unpack, c06f._nak_fields),
     PduKind("file_data", FileDataPdu.unpack, c07._pdu_fields),
-    # models not merged yet: implementation side only (op c09_pdu_tie)
-    PduKind("eof", EofPdu.unpack, _eof_fields),
-    PduKind("finished", FinishedPdu.unpack, _fin_fields),
-    PduKind("metadata", MetadataPdu.unpack, _md_fields),
+    PduKind("eof", EofPdu.unpack, c06v._eof_fields),
+    PduKind("finished", FinishedPdu.unpack, c06v._fin_fields),
+    PduKind("metadata", MetadataPdu.unpack, c06v._md_fields),
 ]}
-MODELLED_PDUS = ["ack", "prompt", "keep_alive", "nak", "file_data"]
-TIE_ONLY_PDUS = ["eof", "finished", "metadata"]
+MODELLED_PDUS = ["ack", "prompt", "keep_alive", "nak", "file_data", "eof", "finished", "metadata"]
 
 
 def _cfdp_declared(d: bytes) -> Optional[int]:
@@ -310,11 +300,15 @@ def _pdu_eval(a) -> Dict[str, Any]:
         else:
             raise
     f = k.fields(obj)
-    n = int(f["packet_len"])
+    reported = int(f["packet_len"])
+    n = declared if declared is not None else len(buf)     # an accepted buffer has the four fixed header octets
     crc = 2 if int(f["crc"]) == 1 else 0
     what = f"{a['kind']} PDU: "
     if n > len(buf):
-        raise SelfCheckFailure(what + f"accepted, but packet_len {n} exceeds the buffer ({len(buf)} octets)")
+        raise SelfCheckFailure(what + f"accepted, but the declared length {n} exceeds the buffer ({len(buf)} octets)")
+    if a["kind"] not in ("eof", "finished") and reported != n:
+        # EOF and Finished recompute their length from the TLVs they decoded (C06/C11 territory)
+        raise SelfCheckFailure(what + f"decoded object reports packet_len {reported}, the header declares {n}")
     st, g = _pdu_try(k, buf[:n])
     prefix = "same" if (st == "ok" and g == f) else ("differs" if st == "ok" else "err:" + g)
     if prefix != "same":
@@ -322,22 +316,17 @@ def _pdu_eval(a) -> Dict[str, Any]:
     st, g = _pdu_try(k, buf[:n] + alt)
     if st == "ok" and g != f:
         raise SelfCheckFailure(what + f"followed by {len(alt)} other octets the declared PDU decodes to different parameters (trailing octets folded in)")
-    return {"fields": f, "len": n, "data_end": n - crc, "inside": True, "prefix": prefix, "extended_ok": True,
-            "trailing": trailing}
+    return {"fields": f, "len": reported, "declared": n, "data_end": n - crc, "inside": True, "prefix": prefix,
+            "extended_ok": True, "trailing": trailing}
 
 
 def op_c09_pdu(a):
     return _pdu_eval(a)
 
 
-def op_c09_pdu_tie(a):
-    """kinds whose model has not been merged: the same evaluation on the real decoder alone"""
-    _pdu_eval(a)
-    return {"checked": True}
-
 
 OPS = {"c09_unit": op_c09_unit, "c09_split": op_c09_split, "c09_stream": op_c09_stream,
-       "c09_pdu": op_c09_pdu, "c09_pdu_tie": op_c09_pdu_tie}
+       "c09_pdu": op_c09_pdu}
 
 
 # ---------------------------------------------------------------------------------------------
@@ -480,7 +469,7 @@ def suffixes(rng: random.Random, kind: str, cfg, raw: bytes) -> List[Tuple[str, 
     return out
 
 
-PDU_KEYS = ["fields", "len", "data_end", "inside", "prefix", "extended_ok"]   # "trailing" is informational
+PDU_KEYS = ["fields", "len", "declared", "data_end", "inside", "prefix", "extended_ok"]   # "trailing" is informational
 
 
 def gen_pdu(kind: str, rng: random.Random, crc: Optional[int] = None, large: Optional[int] = None) -> bytes:
@@ -503,26 +492,20 @@ def gen_pdu(kind: str, rng: random.Random, crc: Optional[int] = None, large: Opt
     if kind == "nak":
         n = rng.choice([0, 0, 1, 2, 3, 7])
         return c06f.spec_nak(a, c06f.fss_val(rng, a["large"]), c06f.fss_val(rng, a["large"]), c06f.rand_segs(rng, a["large"], n))
-    conf = c06f._conf(a)
     if kind == "eof":
-        cond = rng.choice([ConditionCode.NO_ERROR, ConditionCode.NO_ERROR, ConditionCode.FILE_CHECKSUM_FAILURE, ConditionCode.CANCEL_REQUEST_RECEIVED])
-        fault = None if cond == ConditionCode.NO_ERROR else EntityIdTlv(rbytes(rng, rng.choice([1, 2, 4])))
-        return bytes(EofPdu(conf, rbytes(rng, 4), c06f.fss_val(rng, a["large"]), fault, cond).pack())
+        cond = rng.choice([0, 0] + c06f.COND_MEMBERS)
+        fault = None if cond == 0 or rng.random() < 0.3 else c06v.rand_fault(rng)
+        return c06v.spec_eof(a, cond, c06v.rand_checksum(rng), c06f.fss_val(rng, a["large"]), fault)
     if kind == "finished":
-        cond = rng.choice([ConditionCode.NO_ERROR, ConditionCode.NO_ERROR, ConditionCode.FILESTORE_REJECTION, ConditionCode.CHECK_LIMIT_REACHED])
-        fault = None if cond == ConditionCode.NO_ERROR else EntityIdTlv(rbytes(rng, rng.choice([1, 2, 4])))
-        resp = []
-        for _ in range(rng.choice([0, 0, 1, 2])):
-            resp.append(FileStoreResponseTlv.unpack(enc_fs(rng, True)))
-        params = FinishedParams(condition_code=cond, delivery_code=DeliveryCode(rng.randint(0, 1)),
-                                file_status=FileStatus(rng.randint(0, 3)), file_store_responses=resp, fault_location=fault)
-        return bytes(FinishedPdu(conf, params).pack())
+        cond = rng.choice([0, 0] + c06f.COND_MEMBERS)
+        fault = None if (cond in c06v.NO_FAULT_CONDS or rng.random() < 0.4) else c06v.rand_fault(rng)
+        rs = [c06v.rand_resp(rng) for _ in range(rng.choice([0, 0, 1, 2, 3]))]
+        return c06v.spec_fin(a, cond, rng.randint(0, 1), rng.randint(0, 3), rs, fault)
     if kind == "metadata":
-        params = MetadataParams(closure_requested=bool(rng.randint(0, 1)), checksum_type=ChecksumType(rng.choice([0, 3, 15])),
-                                file_size=c06f.fss_val(rng, a["large"]),
-                                source_file_name=c08.rand_utf8(rng, 12).decode() or "a", dest_file_name=c08.rand_utf8(rng, 12).decode() or "b")
-        opts = [CfdpTlv.unpack(enc_tlv(rng.choice([2, 4, 5, 6]) if False else 5, rbytes(rng, rng.choice([0, 1, 4])))) for _ in range(rng.choice([0, 0, 1, 2]))]
-        return bytes(MetadataPdu(conf, params, opts or None).pack())
+        n = rng.choice([None, 0, 1, 2, 3])
+        opts = None if n is None else c06v.rand_options(rng, n)
+        return c06v.spec_md(a, bool(rng.randint(0, 1)), rng.choice(c06v.CHECKSUM_TYPES), c06f.fss_val(rng, a["large"]),
+                            c08.rand_utf8(rng, rng.choice([0, 5, 40])), c08.rand_utf8(rng, rng.choice([0, 5, 40])), opts)
     raise KeyError(kind)
 
 
@@ -566,11 +549,7 @@ class C09(Prop):
         "C09 theorems are corollaries over the decoder models owned by C01/C02/C03/C05/C08/C14/C15/C17/C20; their "
         "faithfulness is established by those properties' correspondence checks and re-checked here on every unit x suffix",
     ]
-    assumptions = [
-        "filestore request/response TLVs whose value field holds more than the encoded names (no encoder produces them) "
-        "report the length of their re-encoding, not the declared TLV length; for them the statement is checked with the "
-        "declared length (theorems C09_fs_request / C09_fs_response)",
-    ]
+    assumptions = []
 
     def impl_ops(self):
         return OPS
@@ -585,7 +564,7 @@ class C09(Prop):
 
     def nontrivial(self, c: Case) -> bool:
         o = c.op
-        if o["op"] in ("c09_pdu", "c09_pdu_tie"):
+        if o["op"] == "c09_pdu":
             return True
         if "unit" in o:
             return (o["unit"] + o["suffix"]).strip("0") != ""
@@ -681,7 +660,9 @@ class C09(Prop):
                             "alt": "a5"}, "any", tag="lv-length-sweep")
                 yield Case({"op": "c09_unit", "kind": "tlv", "cfg": {}, "unit": hx(bytes([rng.choice(c08.TLV_TYPES), v]) + body),
                             "suffix": "", "alt": "a5"}, "any", tag="tlv-length-sweep")
-        # filestore TLVs whose value field holds more than the names ("slack"): accepted, reported < declared
+        # filestore TLVs whose value field holds more than the names ("slack"). MUST HOLD: if such a TLV is accepted
+        # its object has to report the declared length (otherwise it cannot be split off by the reported length);
+        # refusing it is fine. On a tree where it is accepted with a shorter reported length this is a VIOLATION.
         for _ in range(200 if thorough else 40):
             resp = rng.random() < 0.5
             raw = bytearray(enc_fs(rng, resp))
@@ -695,9 +676,8 @@ class C09(Prop):
 
     def pdu_cases(self, rng, thorough) -> Iterator[Case]:
         per = 160 if thorough else 28
-        for kind in MODELLED_PDUS + TIE_ONLY_PDUS:
-            op = "c09_pdu" if kind in MODELLED_PDUS else "c09_pdu_tie"
-            keys = PDU_KEYS if kind in MODELLED_PDUS else None
+        for kind in MODELLED_PDUS:
+            op, keys = "c09_pdu", PDU_KEYS
             for i in range(per):
                 # every CRC x large-file combination in turn: the CRC-on configurations are the ones in
                 # which "to the end of the buffer" and "to the end of the parameters" differ
